@@ -56,7 +56,9 @@ End AMap.
 Arguments amap V : clear implicits.
 
 (** ** Chain data *)
-Record header := { h_hash : hash; h_height : N; h_body : payload }.
+(* h_keys / h_sigs: how many bookkeepers the header lists and how many signatures it carries (the
+   stored record holds two separately counted lists; the hash covers neither) *)
+Record header := { h_hash : hash; h_height : N; h_body : payload; h_keys : N; h_sigs : N }.
 Record tx := { t_hash : hash; t_body : payload }.
 Record block := { b_hdr : header; b_txs : list tx }.
 
@@ -298,6 +300,10 @@ Definition get_header_by_hash (cb : hash -> bool) (s : store) (k : hash) : optio
 (** GetHeaderByHeight = GetHeaderByHash (GetBlockHash height) *)
 Definition get_header_by_height (cb : hash -> bool) (s : store) (h : N) : option header :=
   get_header_by_hash cb s (get_block_hash s h).
+
+(** GetRawHeaderByHash: height and raw bytes of the header GetHeaderByHash returns *)
+Definition get_raw_header_by_hash (cb : hash -> bool) (s : store) (k : hash) : option (N * payload) :=
+  match get_header_by_hash cb s k with Some hd => Some (h_height hd, h_body hd) | None => None end.
 
 Inductive byheight := BHNil | BHErr | BHOk (b : block).
 
